@@ -8,7 +8,7 @@ From Coq Require Import List NArith ZArith Bool.
 Import ListNotations.
 From Base Require Import PyStr CliTypes Regex.
 From Model Require Import Ast Typography Render.
-From Proofs Require Import RegexFacts TypoProofs EllProofs RenderProofs.
+From Proofs Require Import RegexFacts TypoProofs EllProofs RenderProofs TotalProofs.
 
 (* 1. The regex engine always answers (no fuel exhaustion), for every pattern and input. *)
 Theorem C12_regex_total : forall p s,
@@ -45,3 +45,11 @@ Theorem C12_fence_adequate : forall content fc flen line,
   (flen <= Nat.max flen (min_fence_length content fc))%nat.
 Proof. exact fence_adequate. Qed.
 Print Assumptions C12_fence_adequate.
+
+(* 5. The renderer never raises: if the line wrapper answers for every paragraph, rendering answers
+   for every document tree whose tables have a header row (Marko's always do), in every mode. *)
+Theorem C12_render_total : forall wrapper refdefs mode,
+  (forall t i1 i2, exists r, wrapper t i1 i2 = ret r) ->
+  forall blocks, Forall tables_ok blocks -> exists t, render_doc wrapper mode refdefs blocks = ret t.
+Proof. exact render_doc_total. Qed.
+Print Assumptions C12_render_total.
